@@ -13,9 +13,10 @@ import Driver.HRefine
 import Driver.HGocty
 import Driver.HStd
 import Driver.HStdNum
+import Driver.HMarks
 open CtyModel
 
-def handlers : List Handler := [handleTy, handleVal, handleNum, handleOps, handleFunc, handleSet, handleRefine, handleGocty, handleStd, handleStdNum]
+def handlers : List Handler := [handleTy, handleVal, handleNum, handleOps, handleFunc, handleSet, handleRefine, handleGocty, handleStd, handleStdNum, handleMarks]
 
 def handle (op : String) (args : List Sexp) : String :=
   match handlers.findSome? (fun h => h op args) with
